@@ -14,17 +14,27 @@
   OBLIGATION c03_repeated_key_error_repaired_example
   OBLIGATION c03_partial_nodup
   OBLIGATION c03_partial_nodup_example
-  OPEN c03_fuelbound_full
-  OPEN c03_mergeable_full
+  OBLIGATION c03_mergeable_full_refuted
+  OBLIGATION c03_spec_errors_monotone
+  OBLIGATION c03_mergeable_paths_partial
+  OBLIGATION c03_mergeable_paths_example
+  OBLIGATION c03_fuelbound_full_refuted
+  OPEN c03_fuelbound_acyclic_full
+  OPEN c03_mergeable_paths_full
 
-  `c03_full` (first formulation, no hypotheses) is REFUTED (`c03_full_needs_validity`); restated with
-  the necessary hypotheses as `c03_mergeable_full` (open).  Proved: `c03_partial_nodup` (documents
-  without repeated response keys).  Fourth deviation of the pinned tree: a repeated response key whose
-  later occurrence is nulled by a propagating error keeps the earlier partial object
-  (`c03_repeated_key_error_witness`, toggle `mergeKeepsPartialOnNull`).
+  `c03_full` (first formulation, no hypotheses) is REFUTED (`c03_full_needs_validity`).  Restated with the
+  validity hypotheses as `c03_mergeable_full`: REFUTED too (`c03_mergeable_full_refuted`) — with a repeated
+  response key a failing field is reported once per occurrence, each with its own location.  PROVED:
+  `c03_mergeable_paths_partial` (repeated keys included: the specification's data, and every reported error
+  has the response path of one of the specification's errors) and `c03_partial_nodup` (distinct keys: exact
+  errors).  `c03_fuelbound_full` is REFUTED (`c03_fuelbound_full_refuted`: cyclic fragments); the versions
+  with the drivers' fuel bound on acyclic documents are open.  Fourth deviation of the pinned tree: a
+  repeated response key whose later occurrence is nulled by a propagating error keeps the earlier partial
+  object (`c03_repeated_key_error_witness`, toggle `mergeKeepsPartialOnNull`).
 -/
 import AGV.Lemmas.ExecStatic
 import AGV.Lemmas.ExecStaticData
+import AGV.Lemmas.ExecStaticMergeErrs
 
 namespace AGV.Props.C03
 open AGV.Core AGV.Model.ExecStatic AGV.Lemmas.ExecStatic AGV.Spec.Exec
@@ -190,11 +200,10 @@ theorem c03_partial_nodup_example :
   c03_partial_nodup Ex.S1 Ex.doc1 none [] Ex.w1 10 Ex.runHyps
 
 open AGV.Lemmas.ExecStaticData in
-/-- OPEN — `c03_full` restated with the hypotheses found necessary (validity in the sense of
-    `mergeableKeys`: fields exist, occurrences of one response key name the same field with the same
-    arguments, recursively; consistent schema; inert directives; no `Int` leaf for `Float`): in every
-    world with faults the model without defects gives the specification's data and reports a subset
-    of its errors.  `c03_partial_nodup` is the case of distinct keys and explicit fuel. -/
+/-- `c03_full` restated with the validity hypotheses (`mergeableKeys`, as in `c01_data_mergeable_full`) and
+    the exact-membership reading of "reports a subset of its errors".  REFUTED below
+    (`c03_mergeable_full_refuted`): with a repeated response key the executor reports a failing field once
+    per OCCURRENCE, each with that occurrence's location.  What holds: `c03_mergeable_paths_partial`. -/
 def c03_mergeable_full : Prop :=
   ∀ (S : Schema) (d : Doc) (opName : Option String) (raw : List (String × GValue)) (w : World),
     ∀ fuel ≥ fuelBound d,
@@ -206,13 +215,190 @@ def c03_mergeable_full : Prop :=
       ∀ e ∈ (Model.ExecStatic.run Defects.none S d opName raw w fuel).errs, e ∈ (AGV.Spec.Exec.run S d opName raw w fuel).errs
 
 open AGV.Lemmas.ExecStaticData in
-/-- OPEN: `c03_partial_nodup` with `deepEnough` replaced by the drivers' fuel bound (needs: fuel
-    `fuelBound d` is never exhausted on documents whose fragment spreads are acyclic). -/
+/-- `c03_partial_nodup` with `deepEnough` replaced by the drivers' fuel bound.  REFUTED below
+    (`c03_fuelbound_full_refuted`): the hypotheses do not exclude fragment cycles through a field, and on
+    those every fuel is exhausted.  Restated with acyclicity: `c03_fuelbound_acyclic_full` (open). -/
 def c03_fuelbound_full : Prop :=
   ∀ (S : Schema) (d : Doc) (opName : Option String) (raw : List (String × GValue)) (w : World),
     ∀ fuel ≥ fuelBound d,
       (∀ op, selectOp d opName = some op → RunHyps S d op raw w fuel) →
       (Model.ExecStatic.run Defects.none S d opName raw w fuel).val = (AGV.Spec.Exec.run S d opName raw w fuel).val ∧
       ∀ e ∈ (Model.ExecStatic.run Defects.none S d opName raw w fuel).errs, e ∈ (AGV.Spec.Exec.run S d opName raw w fuel).errs
+
+-- ------------------------------------------------------------------ repeated response keys: refutation and what holds
+
+def p1 : Pos := ⟨1, 20⟩
+/-- `{ node { req }  node { req } }` — VALID; the two `req` selections sit at different locations -/
+def opTwice : OpDef := { ty := .query, name := none, vars := [], dirs := [], sels := [
+  selNode, Sel.field none "node" [] [] [Sel.field none "req" [] [] [] p1] p0] }
+def docTwice : Doc := { ops := [opTwice], frags := [] }
+
+open AGV.Lemmas.ExecStaticData in
+/-- `c03_mergeable_full` is FALSE: for `{ node { req } node { req } }` with `req: Int!` failing, the executor
+    runs one field future per occurrence of `node`, so `req` fails twice and is reported twice — once with
+    the location of each occurrence — where the specification (one execution of the merged selection set
+    `{ req req }`) reports it once, with the location of the first.  The second error (path `node.req`,
+    location 1:20) is not among the specification's errors.  Same on the real executor (replayed:
+    `{ b { fltReq } b { fltReq } }` answers two errors `b.fltReq` at 1:16 and 1:29); the resolver running once
+    per occurrence is the listed finding C04-repeated-key-resolved-per-occurrence. -/
+theorem c03_mergeable_full_refuted : ¬ c03_mergeable_full := by
+  intro h
+  have h1 := (h S0 docTwice none [] w0 6 (by simp [fuelBound, selCount, docTwice, opTwice, selNode, selReq]) (by
+    intro op hop
+    have : op = opTwice := by simpa [selectOp, docTwice] using hop.symm
+    subst this
+    exact ⟨⟨_, rfl, rfl⟩,
+      { noDefect := rfl
+        schema := schemaOK_of_wf _ (by decide)
+        builtins := by decide
+        frags := by decide
+        floats := floats_of_world _ (by decide) },
+      by decide, by decide⟩)).2
+  have hm : (Model.ExecStatic.run Defects.none S0 docTwice none [] w0 6).errs =
+      [⟨[.key "node", .key "req"], p0⟩, ⟨[.key "node", .key "req"], p1⟩] := by rfl
+  have hs : (AGV.Spec.Exec.run S0 docTwice none [] w0 6).errs = [⟨[.key "node", .key "req"], p0⟩] := by rfl
+  rw [hm, hs] at h1
+  have := h1 ⟨[.key "node", .key "req"], p1⟩ (by simp)
+  simp [p0, p1] at this
+
+open AGV.Lemmas.ExecStaticData AGV.Lemmas.ExecStaticMerge in
+/-- The specification executes everything it collects (no short-circuit), so its errors for a part `a` (or
+    `b`) of a selection set are, by response path, among its errors for the union `a ++ b` — the error
+    half of the merge lemma (`c01_exec_union_is_merge` is the data half). -/
+theorem c03_spec_errors_monotone (c : Model.ExecStatic.Ctx) (H : DataHyps c) (fuel : Nat) (st rt : String) (id : Nat)
+    (a b : List Sel) (path : List PathSeg) (hrt : IsObj c.S rt) (hst : doesApply c.S rt st = true)
+    (ha : selsInert c.vars a = true) (hb : selsInert c.vars b = true) (hmk : MKP c fuel st rt (a ++ b)) :
+    PathSub (execSet (sc c) fuel rt id a path).errs (execSet (sc c) fuel rt id (a ++ b) path).errs ∧
+    PathSub (execSet (sc c) fuel rt id b path).errs (execSet (sc c) fuel rt id (a ++ b) path).errs :=
+  execSet_errs_mono c H fuel st rt id a b path hrt hst ha hb hmk
+
+open AGV.Lemmas.ExecStaticData AGV.Lemmas.ExecStaticMerge in
+/-- What holds with repeated response keys: for every schema, document, variables, world with arbitrary
+    faults and every fuel, under the hypotheses of `c01_data_mergeable_full` (consistent schema, inert
+    directives, `mergeableKeys`: occurrences of one response key name one field with one argument list,
+    recursively; no `Int` leaf for `Float`) and `deepEnough` (the fuel is not exhausted), the model without
+    defects gives the specification's data — so an error nulls exactly the nearest nullable position —
+    and every error it reports has the response path of one of the specification's errors (`PathSub`;
+    the location is that of the occurrence that was executed). -/
+theorem c03_mergeable_paths_partial (S : Schema) (d : Doc) (opName : Option String) (raw : List (String × GValue))
+    (w : World) (fuel : Nat)
+    (H : ∀ op, selectOp d opName = some op →
+      IsObj S (rootOf S op) ∧ DataHyps (runCtx S d op raw w) ∧
+      selsInert (coerceVars op.vars raw) op.sels = true ∧
+      mergeableKeys (runCtx S d op raw w) fuel (rootOf S op) (rootOf S op) op.sels = true ∧
+      deepEnough (runCtx S d op raw w) fuel (rootOf S op) (rootOf S op) op.sels = true) :
+    (Model.ExecStatic.run Defects.none S d opName raw w fuel).val = (AGV.Spec.Exec.run S d opName raw w fuel).val ∧
+    ∀ e ∈ (Model.ExecStatic.run Defects.none S d opName raw w fuel).errs,
+      ∃ e' ∈ (AGV.Spec.Exec.run S d opName raw w fuel).errs, e'.path = e.path :=
+  ⟨run_val_eq_mergeable S d opName raw w fuel (fun op hop => ⟨(H op hop).1, (H op hop).2.1, (H op hop).2.2.1, (H op hop).2.2.2.1⟩),
+   run_errs_paths_mergeable S d opName raw w fuel H⟩
+
+open AGV.Lemmas.ExecStaticData in
+/-- `{ x: obj { f } x: obj { a f }  items { a } items { a name } }` over `Ex.S1`/`Ex.w1` (`f: Float!` holds NaN on
+    object 1, `a` fails on object 3): every key occurs twice, `f` and the failing `a` are executed twice -/
+def opRep : OpDef := { ty := .query, name := none, vars := [], dirs := [], sels := [
+  Sel.field (some "x") "obj" [] [] [Sel.field none "f" [] [] [] p0] p0,
+  Sel.field (some "x") "obj" [] [] [Sel.field none "a" [] [] [] p1, Sel.field none "f" [] [] [] p1] p1,
+  Sel.field none "items" [] [] [Sel.field none "a" [] [] [] p0] p0,
+  Sel.field none "items" [] [] [Sel.field none "a" [] [] [] p1, Sel.field none "name" [] [] [] p1] p1] }
+open AGV.Lemmas.ExecStaticData in
+def docRep : Doc := { ops := [opRep], frags := [] }
+
+open AGV.Lemmas.ExecStaticData in
+/-- the hypotheses of `c03_mergeable_paths_partial` hold for `docRep` -/
+theorem c03_mergeable_paths_example :
+    ∀ op, selectOp docRep none = some op →
+      IsObj Ex.S1 (rootOf Ex.S1 op) ∧ DataHyps (runCtx Ex.S1 docRep op [] Ex.w1) ∧
+      selsInert (coerceVars op.vars []) op.sels = true ∧
+      mergeableKeys (runCtx Ex.S1 docRep op [] Ex.w1) 10 (rootOf Ex.S1 op) (rootOf Ex.S1 op) op.sels = true ∧
+      deepEnough (runCtx Ex.S1 docRep op [] Ex.w1) 10 (rootOf Ex.S1 op) (rootOf Ex.S1 op) op.sels = true := by
+  intro op hop
+  have : op = opRep := by simpa [selectOp, docRep] using hop.symm
+  subst this
+  exact ⟨⟨Ex.tQuery, rfl, rfl⟩,
+    { noDefect := rfl
+      schema := schemaOK_of_wf _ (by decide)
+      builtins := by decide
+      frags := by decide
+      floats := floats_of_world _ (by decide) },
+    by decide, by decide, by decide⟩
+
+open AGV.Lemmas.ExecStaticData in
+/-- the instance is not vacuous: the model reports four errors (two per failing field), the specification two -/
+example : (Model.ExecStatic.run Defects.none Ex.S1 docRep none [] Ex.w1 10).errs =
+      [⟨[.key "x", .key "f"], p0⟩, ⟨[.key "x", .key "f"], p1⟩,
+       ⟨[.key "items", .idx 1, .key "a"], p0⟩, ⟨[.key "items", .idx 1, .key "a"], p1⟩] ∧
+    (AGV.Spec.Exec.run Ex.S1 docRep none [] Ex.w1 10).errs =
+      [⟨[.key "x", .key "f"], p0⟩, ⟨[.key "items", .idx 1, .key "a"], p0⟩] := by
+  constructor <;> rfl
+
+-- ------------------------------------------------------------------ the fuel bound: refutation, restated (open)
+
+def Sc : Schema := { query := "Query", types := [
+  { name := "Query", kind := .object, fields := [{ name := "me", ty := .named "Query", args := [] }] },
+  { name := "Int", kind := .scalar }] }
+def wc : World := { entries := [((0, "me"), .obj "Query" 0)] }
+/-- `fragment F on Query { me { me { ...F } } }` — spreads itself below two fields -/
+def fragC : FragDef := { name := "F", cond := "Query", dirs := [], sels := [
+  Sel.field none "me" [] [] [Sel.field none "me" [] [] [Sel.spread "F" [] p0] p0] p0] }
+def opC : OpDef := { ty := .query, name := none, vars := [], dirs := [], sels := [Sel.spread "F" [] p0] }
+/-- `{ ...F }` with the cyclic `F` (rejected by validation rule NoFragmentCycles) -/
+def docC : Doc := { ops := [opC], frags := [fragC] }
+
+open AGV.Lemmas.ExecStaticData in
+/-- `c03_fuelbound_full` is FALSE: `RunHyps` does not exclude a fragment that spreads itself below a field.
+    On `{ ...F }`, `fragment F on Query { me { me { ...F } } }` with `me` returning the root object every
+    fuel is exhausted; at fuel 8 ≥ `fuelBound` = 7 the model reports running out of fuel as an error where
+    the specification executor reports none. -/
+theorem c03_fuelbound_full_refuted : ¬ c03_fuelbound_full := by
+  intro h
+  have h1 := (h Sc docC none [] wc 8 (by simp [fuelBound, selCount, docC, opC, fragC]) (by
+    intro op hop
+    have : op = opC := by simpa [selectOp, docC] using hop.symm
+    subst this
+    exact {
+      root := ⟨_, rfl, rfl⟩
+      data := {
+        noDefect := rfl
+        schema := schemaOK_of_wf _ (by decide)
+        builtins := by decide
+        frags := by decide
+        floats := floats_of_world _ (by decide) }
+      opInert := by decide
+      keys := by decide })).2
+  have hs : (AGV.Spec.Exec.run Sc docC none [] wc 8).errs = [] := by rfl
+  have hm : (Model.ExecStatic.run Defects.none Sc docC none [] wc 8).errs =
+      [⟨[.key "me", .key "me", .key "me", .key "me", .key "me", .key "me", .key "me", .key "me"], ⟨0, 0⟩⟩] := by rfl
+  rw [hm, hs] at h1
+  have := h1 _ (List.mem_singleton.2 rfl)
+  simp at this
+
+open AGV.Lemmas.ExecStaticData AGV.Lemmas.ExecStaticMerge in
+/-- OPEN: `c03_partial_nodup` with `deepEnough` replaced by the drivers' fuel bound, for documents whose
+    fragment spreads are acyclic (`FragsAcyclic`, validation rule NoFragmentCycles).  Needs: on such
+    documents `deepEnough` holds at every fuel ≥ `fuelBound d` (every path through the expanded document
+    enters a fragment at most once, so it is shorter than the total number of selections). -/
+def c03_fuelbound_acyclic_full : Prop :=
+  ∀ (S : Schema) (d : Doc) (opName : Option String) (raw : List (String × GValue)) (w : World),
+    FragsAcyclic d →
+    ∀ fuel ≥ fuelBound d,
+      (∀ op, selectOp d opName = some op → RunHyps S d op raw w fuel) →
+      (Model.ExecStatic.run Defects.none S d opName raw w fuel).val = (AGV.Spec.Exec.run S d opName raw w fuel).val ∧
+      ∀ e ∈ (Model.ExecStatic.run Defects.none S d opName raw w fuel).errs, e ∈ (AGV.Spec.Exec.run S d opName raw w fuel).errs
+
+open AGV.Lemmas.ExecStaticData AGV.Lemmas.ExecStaticMerge in
+/-- OPEN: `c03_mergeable_paths_partial` with `deepEnough` replaced by the drivers' fuel bound on documents
+    with acyclic fragment spreads (same missing lemma as `c03_fuelbound_acyclic_full`). -/
+def c03_mergeable_paths_full : Prop :=
+  ∀ (S : Schema) (d : Doc) (opName : Option String) (raw : List (String × GValue)) (w : World),
+    FragsAcyclic d →
+    ∀ fuel ≥ fuelBound d,
+      (∀ op, selectOp d opName = some op →
+        IsObj S (rootOf S op) ∧ DataHyps (runCtx S d op raw w) ∧
+        selsInert (coerceVars op.vars raw) op.sels = true ∧
+        mergeableKeys (runCtx S d op raw w) fuel (rootOf S op) (rootOf S op) op.sels = true) →
+      (Model.ExecStatic.run Defects.none S d opName raw w fuel).val = (AGV.Spec.Exec.run S d opName raw w fuel).val ∧
+      ∀ e ∈ (Model.ExecStatic.run Defects.none S d opName raw w fuel).errs,
+        ∃ e' ∈ (AGV.Spec.Exec.run S d opName raw w fuel).errs, e'.path = e.path
 
 end AGV.Props.C03
